@@ -49,6 +49,28 @@ def square_vector(J, d=3):
     return np.array([J[0] + i * J[1] - J[2] / (i + 1) for i in range(d)])
 
 
+def kwargs_scalar(J, **kw):
+    """takes its extras through **kwargs: no named parameter for them"""
+    return kw.get("scale", 1.0) * (J[0] - J[1]) + kw.get("offset", 0.0)
+
+
+def undecorated(fn):
+    def wrapper(*args, **kwargs):        # a decorator that does not copy the signature (no functools.wraps)
+        return fn(*args, **kwargs)
+    return wrapper
+
+
+wrapped_scalar = undecorated(slow_scalar)
+
+
+def scratch_vector(J, buf=None, scale=1.0):
+    """works in a scratch buffer handed over with the extra arguments (a serial loop, and separate worker processes, each see their own buffer between
+    the two statements; the sleep makes workers that share one buffer overlap)"""
+    buf[:3] = J
+    time.sleep(0.002 * ((int(round(J[2] * 983)) * 5) % 3))
+    return float(scale * (buf[0] + 10 * buf[1] + 100 * buf[2]))
+
+
 def identity(J):
     """returns the very array it was handed (an order probe): the collected values must not alias a re-used buffer"""
     return J
@@ -201,6 +223,22 @@ def run(ctx):
                     rep(f"parallel result (shape {data.shape}) differs from the serial evaluation (shape {serial.shape}) in values or order"); continue
                 ctx.case((name,), nontrivial=n_jobs > 1)
                 ctx.count("parallel_runs_equal_serial")
+    # ---- the same with extras reaching the function through **kwargs / an unwrapped decorator, and with a scratch buffer among the extras
+    for fn, fname, extra in ((kwargs_scalar, "kwargs", dict(scale=2.5, offset=0.25)), (wrapped_scalar, "decorated", dict(scale=-1.5, offset=2.0)),
+                             (scratch_vector, "scratch", dict(buf=np.zeros(4), scale=3.0))):
+        ex_serial = {k: (v.copy() if isinstance(v, np.ndarray) else v) for k, v in extra.items()}
+        serial = np.array([fn(J, **ex_serial) for J in pts]).T
+        for n_jobs in ([1, 2, 4, 8] if quick else [1, 2, 3, 4, 6, 8, 12, 16]):
+            name = f"compute_phase_diagram({fname}, n_jobs={n_jobs})"
+            rep = lambda what, **kw: ctx.impl_violation(f"{name}: {what}", dict(case=name, fn=fname, n_jobs=n_jobs, **kw))
+            try:
+                data = quiet(lambda: pdg.compute_phase_diagram(pts, fn, {k: (v.copy() if isinstance(v, np.ndarray) else v) for k, v in extra.items()}, n_jobs=n_jobs))
+            except Exception as ex:
+                rep(f"raised {type(ex).__name__}: {ex}"); continue
+            if data.shape != serial.shape or not np.array_equal(data, serial):
+                rep(f"parallel result (shape {data.shape}) differs from the serial evaluation with the same extra arguments (shape {serial.shape})"); continue
+            ctx.case((name,), nontrivial=n_jobs > 1)
+            ctx.count("parallel_runs_equal_serial")
     ctx.assumptions += ["mpire's WorkerPool (chunking, result ordering, numpy concatenation) and the OS scheduler are third-party: the theorem covers every chunking and "
                         "arrival order of the abstract reassembly; real schedules are sampled (index-dependent sleeps, n_jobs 1..16)",
                         "matplotlib.tri.Triangulation keeps the node arrays it is given"]
